@@ -446,7 +446,7 @@ pub fn print_styled(v: &RVal, style: u8) -> String {
                 }
                 out.push('"');
             }
-            2 => {
+            2 | 3 => {
                 out.push('"');
                 for ch in s.chars() {
                     match ch {
@@ -474,9 +474,12 @@ pub fn print_styled(v: &RVal, style: u8) -> String {
                 out.push('[');
                 for (i, x) in a.iter().enumerate() {
                     if i > 0 {
-                        out.push_str(if style == 1 { ", " } else { "," });
+                        out.push_str(match style { 1 => ", ", 3 => "\r\n,\t", _ => "," });
                     }
                     rec(x, style, out);
+                }
+                if style == 3 {
+                    out.push_str("\r\n");
                 }
                 out.push(']');
             }
@@ -484,11 +487,14 @@ pub fn print_styled(v: &RVal, style: u8) -> String {
                 out.push('{');
                 for (i, (k, x)) in o.iter().enumerate() {
                     if i > 0 {
-                        out.push_str(if style == 1 { ", " } else { "," });
+                        out.push_str(match style { 1 => ", ", 3 => "\r\n,\t", _ => "," });
                     }
                     s_out(k, style, out);
-                    out.push_str(if style == 1 { ": " } else { ":" });
+                    out.push_str(match style { 1 => ": ", 3 => "\t:\r\n", _ => ":" });
                     rec(x, style, out);
+                }
+                if style == 3 {
+                    out.push('\r');
                 }
                 out.push('}');
             }
@@ -497,6 +503,10 @@ pub fn print_styled(v: &RVal, style: u8) -> String {
     }
     let mut out = String::new();
     rec(v, style, &mut out);
+    if style == 3 {
+        // style 3: CRLF / TAB / CR between tokens and a CRLF after the document
+        out.push_str("\r\n");
+    }
     out
 }
 
